@@ -325,7 +325,7 @@ def debugfs_script(img, cmds, workdir, write=True, tag="dbg", clock=1500000100, 
 
 # ----------------------------------------------------------------------------- e2fsck
 def e2fsck(img, mode, workdir, tag="fsck", clock=1500001000, rand_seed=3, faults=(), extra=(), devices=None,
-           keep_log=False, problems=True, budget=400000, cpu_s=60, plan_kw=None):
+           keep_log=False, problems=True, budget=400000, cpu_s=20, plan_kw=None):
     """Run the real e2fsck.  mode: list of flags, e.g. ['-fn'].  Returns (Result, [problem codes])."""
     env = {}
     plog = None
